@@ -40,12 +40,26 @@ def cargo_env():
     return env
 
 
+# Package root used for cargo and as the workers' cwd. For /repo it is harness/ itself; for any other
+# repository under test (mutation self-test) it is a shadow directory next to the scratch target
+# dir (own Cargo.toml, sources symlinked), so concurrent runs against different repositories never
+# share a manifest.
+RUNROOT = HARNESS if REPO == "/repo" else TARGET + "-harness"
+
+
 def gen_cargo_toml():
     src = open(os.path.join(HARNESS, "Cargo.toml.in")).read().replace("@REPO@", REPO)
-    dst = os.path.join(HARNESS, "Cargo.toml")
+    if RUNROOT != HARNESS:
+        os.makedirs(os.path.join(RUNROOT, ".cargo"), exist_ok=True)
+        link = os.path.join(RUNROOT, "src")
+        if not os.path.islink(link):
+            os.symlink(os.path.join(HARNESS, "src"), link)
+        shutil.copy(os.path.join(HARNESS, ".cargo", "config.toml"), os.path.join(RUNROOT, ".cargo", "config.toml"))
+        shutil.copy(os.path.join(HARNESS, "Cargo.lock"), os.path.join(RUNROOT, "Cargo.lock"))
+    dst = os.path.join(RUNROOT, "Cargo.toml")
     if not os.path.exists(dst) or open(dst).read() != src:
         open(dst, "w").write(src)
-    lock = os.path.join(HARNESS, "Cargo.lock")
+    lock = os.path.join(RUNROOT, "Cargo.lock")
     if not os.path.exists(lock):
         shutil.copy(os.path.join(REPO, "Cargo.lock"), lock)
 
@@ -64,14 +78,14 @@ def build(flavour):
         t0 = time.time()
         if flavour in ("chk", "rel"):
             cmd = ["cargo", "build", "--quiet", "--profile", flavour, "--bin", "mon"]
-            r = subprocess.run(cmd, cwd=HARNESS, env=env, capture_output=True, text=True)
+            r = subprocess.run(cmd, cwd=RUNROOT, env=env, capture_output=True, text=True)
             prefix = [os.path.join(TARGET, flavour, "mon")]
         elif flavour == "asan":
             env["RUSTFLAGS"] = "-Zsanitizer=address -Cforce-frame-pointers=yes"
             env["CARGO_TARGET_DIR"] = TARGET + "-asan"
             cmd = ["cargo", "+nightly", "build", "--quiet", "--profile", "san", "--bin", "mon",
                    "--target", "x86_64-unknown-linux-gnu"]
-            r = subprocess.run(cmd, cwd=HARNESS, env=env, capture_output=True, text=True)
+            r = subprocess.run(cmd, cwd=RUNROOT, env=env, capture_output=True, text=True)
             prefix = [os.path.join(TARGET + "-asan", "x86_64-unknown-linux-gnu", "san", "mon")]
         elif flavour in ("miri-san", "miri-chk"):
             prof = flavour.split("-")[1]
@@ -79,7 +93,7 @@ def build(flavour):
             env["MIRIFLAGS"] = "-Zmiri-disable-isolation"
             cmd = ["cargo", "+nightly", "miri", "run", "--quiet", "--profile", prof, "--bin", "mon", "--",
                    "distinct"]
-            r = subprocess.run(cmd, cwd=HARNESS, env=env, capture_output=True, text=True)
+            r = subprocess.run(cmd, cwd=RUNROOT, env=env, capture_output=True, text=True)
             prefix = ["cargo", "+nightly", "miri", "run", "--quiet", "--profile", prof, "--bin", "mon", "--"]
         else:
             raise SystemExit("unknown flavour " + flavour)
@@ -174,7 +188,7 @@ def run_shard(job, seed, shard, workdir):
         errpath = os.path.join(workdir, tag + ".stderr")
         with open(errpath, "wb") as ef:
             try:
-                p = subprocess.run(argv, cwd=HARNESS, env=run_env(job.flavour), stdout=subprocess.PIPE,
+                p = subprocess.run(argv, cwd=RUNROOT, env=run_env(job.flavour), stdout=subprocess.PIPE,
                                    stderr=ef, timeout=job.wall_limit)
                 rc, out = p.returncode, p.stdout.decode("utf-8", "replace")
             except subprocess.TimeoutExpired as e:
@@ -430,7 +444,7 @@ def replay(prop, path):
             cpu_limit=plans.CPU_LIMIT.get(v["cmd"], 0), crash_is_violation=True)
     j.nshards = 1
     argv = argv_for(j, seed, 0, 0, only=int(v["index"]))
-    p = subprocess.run(argv, cwd=HARNESS, env=run_env(j.flavour), capture_output=True, text=True)
+    p = subprocess.run(argv, cwd=RUNROOT, env=run_env(j.flavour), capture_output=True, text=True)
     vio = [l for l in p.stdout.splitlines() if l.startswith("V ")]
     for l in vio:
         log(l[:2000])
